@@ -366,7 +366,9 @@ Section Ims.
     - destruct (serveX (c, hs) now r) as [[[[st1 rp] lg] cl] | e | ] eqn:S; try discriminate.
       intros H; inversion H; subst. eapply dated_serve. exact S.
     - intros H; inversion H; subst. cbn [fst]. unfold vclear_page.
-      eapply dated_trans; apply dated_remove.
+      assert (DU : forall r1 c1, dated now' c1 (vclear_uri r1 c1))
+        by (intros r1 c1; unfold vclear_uri; eapply dated_trans; apply dated_remove).
+      destruct (redirect_target r); [eapply dated_trans; apply DU | apply DU].
     - intros H; inversion H; subst. cbn [fst]. intros k. right. left. reflexivity.
     - intros H; inversion H; subst. apply dated_refl.
   Qed.
@@ -451,8 +453,10 @@ Section Honest.
         * lia.
         * (* a clear only removes *)
           destruct st as [c hs]. cbn [stepV] in S. inversion S; subst. cbn [fst] in *.
-          unfold vclear_page in E. rewrite !pc_find_remove in E.
-          destruct (key_eqb k (key_p r)); [discriminate|]. destruct (key_eqb k (key_pq r)); [discriminate|]. exact E.
+          assert (RM : forall r1 c1, pc_find k (vclear_uri r1 c1) = Some e -> pc_find k c1 = Some e).
+          { intros r1 c1 E1. unfold vclear_uri in E1. rewrite !pc_find_remove in E1.
+            destruct (key_eqb k (key_p r1)); [discriminate|]. destruct (key_eqb k (key_pq r1)); [discriminate|]. exact E1. }
+          unfold vclear_page in E. destruct (redirect_target r); [apply RM in E|]; apply RM in E; exact E.
         * destruct st as [c hs]. cbn [stepV] in S. inversion S; subst. cbn [fst pc_find] in E. discriminate.
         * cbn [stepV] in S. inversion S; subst. exact E.
   Qed.
